@@ -712,9 +712,17 @@ def run(ctx):
                 return storage_subscript(su)
             return None
 
-        def is_get(y):
+        def is_get(y, depth=0):
             y = ir.unwrap(y)
-            return isinstance(y, dict) and y.get("k") == "call" and short(y.get("name") or "") == "get" and y.get("this") is not None and fmt(ir.unwrap(y["this"])) == "data_"
+            if isinstance(y, dict) and y.get("k") == "call" and short(y.get("name") or "") == "get" and y.get("this") is not None and fmt(ir.unwrap(y["this"])) in ("data_", "this->data_"):
+                return True
+            # the container's own accessor of the storage pointer: data() { return data_.get(); }
+            if depth == 0 and isinstance(y, dict) and y.get("k") == "call" and not [a for a in y.get("args", []) if not (isinstance(a, dict) and a.get("k") == "defarg")] \
+                    and (y.get("this") is None or is_this(y.get("this")) or fmt(ir.unwrap(y.get("this"))) == "(*this)"):
+                accs = [g for g in methods if g.name == short(y.get("name") or "") and not g.params and g.has_cfg]
+                rets = [ir.unwrap(e["expr"].get("e")) for g in accs for _, _, e in g.roots() if e["expr"].get("k") == "return"]
+                return bool(accs) and bool(rets) and all(len(list(g.roots())) == 1 for g in accs) and all(is_get(r, 1) for r in rets)
+            return False
         if is_get(x):
             return {"k": "lit", "t": "int", "v": 0}
         bo = ir.as_binop(x)
@@ -736,6 +744,13 @@ def run(ctx):
             ctx.broken("R06.9", f, "iterator-bound:" + tag, "%s has %d return statements: accessor shape not recognised" % (f.name, len(rr)), f)
             continue
         x = rr[0]
+        # a reverse accessor that delegates to its sibling of the same end (crbegin() { return rbegin(); })
+        if f.name in REV and isinstance(x, dict) and x.get("k") == "call" and short(x.get("name") or "") in REV and short(x.get("name") or "") != f.name \
+                and not [a for a in x.get("args", []) if a.get("k") != "defarg"] and (x.get("this") is None or is_this(x.get("this"))):
+            ctx.check(REV[short(x["name"])] == role, "R06.9", f, "iterator-bound:" + tag, "%s() delegates to %s(), the other end of the range" % (f.name, short(x["name"])), f,
+                      why_ok="delegates to %s()" % short(x["name"]))
+            n_deleg[0] += 1
+            continue
         if f.name in REV:
             # reverse_iterator(<forward accessor of the opposite end>) or reverse_iterator(<slot address>)
             ps = None
